@@ -28,6 +28,9 @@ SPEC = dict(
         "the harness mocks: header feed (unbuffered channel per subscription, as nodebuilder/header/service.go Subscribe provides), header getter "
         "(blocks every getAll call until the schedule decides fail/ok), share getter (gomock; serves namespace data from real squares via "
         "eds.NamespaceData); squares, headers and blobs are real (rsmt2d, headertest, NewBlobV0)",
+        "the harness observes that the producer has returned (close(blobCh)) by reading the closed flag of runtime.hchan through unsafe (layout "
+        "self-tested at the start of every run): receiving from the channel instead would change what the producer decides when it tests "
+        "len(blobCh) == cap(blobCh); responses are read only through the channel",
         "Go runtime: channel FIFO order, select semantics and goroutine scheduling are modelled at channel/select granularity (events), not verified",
         "the harness only generates schedules whose outcome is determined (it never races a header against an already cancelled/stopped idle "
         "producer); the theorems cover those interleavings too",
